@@ -1079,6 +1079,8 @@ def mon_c14(sc, res):
     elem_timeout = {}        # path -> ns (None = unknown)
     dead = set()
     timer_of = {}            # timer index -> (caller, origin id)
+    answered = set()         # (connection, id) that received a response
+    unhealthy = set()        # connections a send to which failed
     for si, st in enumerate(sc.steps):
         sends = step_sends(res, si)
         reqs = [(c, v) for c, v in step_requests(st, itr.replies, si) if c not in dead and v is not None]
@@ -1130,6 +1132,21 @@ def mon_c14(sc, res):
                 timer_of[arms[i][1]] = (c, cget(r, b"id"))
             if want is not None and abs(arms[i][2] - want) > 1:
                 fails.append("step %d: request on %s armed %d ns, expected %d ns (%s)" % (si, show(path), arms[i][2], want, src))
+        # a request whose timer fired and was dispatched in this step has its final answer by the end of the step
+        for d, ok, v in sends:
+            if is_response(v) and is_id(cget(v, b"id")):
+                answered.add((d, repr(cget(v, b"id"))))
+        delivered = set(itr.expired[si]) if st[0] == "advance" else (
+            set(sub[1] for sub in st[1] if sub[0] == "timer") & set(itr.expired[si]) if st[0] == "mixed" else set())
+        for t in sorted(delivered):
+            if t in timer_of:
+                c0, rid0 = timer_of[t]
+                if is_id(rid0) and c0 not in dead and c0 not in itr.closed[si] and (c0, repr(rid0)) not in answered \
+                        and not any(d == c0 and not ok for d, ok, v in step_sends(res, si)) and c0 not in unhealthy:
+                    fails.append("step %d: the deadline of c%d's request %s passed and its timer was dispatched, but the caller has no answer" % (si, c0, show(rid0)))
+        for d, ok, v in sends:
+            if not ok:
+                unhealthy.add(d)
         # timeout answers only when the timer expired in this step
         for d, ok, v in sends:
             if is_response(v) and has_member(v, b"error"):
